@@ -12,7 +12,7 @@
    HTTP are run for real in the correspondence check, not modelled). *)
 From GD Require Import Base.Prelude Model.Strings Model.StrOps Model.Buffer Model.Net Model.Valve Model.Gamespy Model.Games.
 From GD Require Import Spec.Rand Spec.ValveSpec Spec.ValveGen Spec.GamespySpec Spec.GamesSpec Proofs.GamesProofs.
-From GD Require Import Model.View Model.Eco Spec.EcoSpec Proofs.EcoRoundtrip.
+From GD Require Import Model.View Model.Eco Spec.EcoSpec Proofs.EcoRoundtrip Proofs.Jc2mQuery.
 From GD Require Import Proofs.Msafe Proofs.ValveTransport Proofs.Gamespy2Roundtrip Proofs.Jc2mRoundtrip Proofs.ValveGamesRoundtrip.
 
 Theorem c07_savage2_roundtrip : forall s, wf_savage2 s = true ->
@@ -100,6 +100,25 @@ Definition c07_full_statement_theship (st : vstate) (o : vopts) : Prop :=
   fst (theship_query (fun _ _ => Err Decompress) 27015 None (script_of (valve_script st o gathering_default))) = ship_expected st.
 Definition c07_full_statement_battalion (st : vstate) (o : vopts) : Prop :=
   fst (battalion_query (fun _ _ => Err Decompress) 7780 (script_of (valve_script st o gathering_default))) = bat_expected st.
+
+(* Just Cause 2: Multiplayer, the whole query: handshake with the challenge, data request, the data packet behind its
+   11 skipped header bytes (side conditions of the transport: the challenge is an i32 whose text fits the 16-byte
+   handshake receive, the packet fits the 2048-byte receive) *)
+Theorem c07_jc2m_query_roundtrip : forall port s, wf_jc s = true ->
+  length (js_skip s) = 11%nat ->
+  (- 2147483648 <= js_challenge s < 2147483648)%Z -> (length (show_Z (js_challenge s)) <= 10)%nat ->
+  (length (jc_data s) + 16 <= 2048)%nat ->
+  fst (jc2m_query port None (script_net (jc_script s))) = Ok (jc_expected s).
+Proof. exact jc2m_query_roundtrip. Qed.
+Print Assumptions c07_jc2m_query_roundtrip.
+
+Example c07_jc2m_query_nonvacuous :
+  existsb (fun seed => let s := fst (gen_jc seed) in
+             wf_jc s && negb (Nat.eqb (length (js_players s)) 0) && Nat.eqb (length (js_skip s)) 11
+             && (-2147483648 <=? js_challenge s)%Z && (js_challenge s <? 2147483648)%Z && (length (show_Z (js_challenge s)) <=? 10)%nat
+             && (length (jc_data s) + 16 <=? 2048)%nat)
+          [1; 2; 3; 4; 5; 6; 7; 8; 9; 10; 11; 12; 13; 14; 15; 16] = true.
+Proof. vm_compute. reflexivity. Qed.
 
 (* ---- Eco ---- *)
 (* the table the theorem speaks about: member of Info, its type, field of the response (games/eco/types.rs) *)
